@@ -467,6 +467,9 @@ func okParamList(nodes []ast.Node) (*token.Token, bool) {
 	log.Debugf("okParamList: %d: %#v", l, nodes)
 	for i, n := range nodes {
 		last := i == l-1
+		if n == nil { // (a,,)=>1, (a,@)=>1: a parameter that failed to parse.
+			return token.Intern(token.ILLEGAL, "<missing>"), false
+		}
 		t := n.Value()
 		if last && t.Type() == token.DOTDOT {
 			return t, true
